@@ -84,7 +84,11 @@ pub fn decode_msg(u: &mut Unstructured<'_>, addrs: &[u16]) -> M {
             M::Data { off, data }
         }
         11 | 12 => M::Count(pick(u, &[0u16, 1, 2, 3, 4, 5, 6, 0xFFFF])),
-        _ => M::Unknown { addr: a, ty: u.int_in_range(7..=255u8).unwrap_or(7), data: vec![1] },
+        _ => {
+            let ty = if u.arbitrary().unwrap_or(false) { u.int_in_range(0..=7u8).unwrap_or(7) } else { u.int_in_range(7..=255u8).unwrap_or(7) };
+            let n = u.int_in_range(0..=3usize).unwrap_or(1);
+            M::Unknown { addr: a, ty, data: bytes_n(u, n) }
+        }
     }
 }
 
